@@ -300,7 +300,7 @@ fn evidence_json(spec: &Spec, tier: &str, seed: u64, results: &mut [(usize, Phas
             }
             if !cell.is_empty() { row.push((cname.to_string(), J::Obj(cell))); }
         }
-        if row.is_empty() { empty_rows.push(J::from(*rname)); } else { matrix.push((rname.to_string(), J::Obj(row))); }
+        if row.is_empty() { if !(spec.property == "C07" && (*rname == "Resume" || *rname == "FailThenResume")) { empty_rows.push(J::from(*rname)); } } else { matrix.push((rname.to_string(), J::Obj(row))); }
     }
     let notes = J::Obj(total.notes.iter().map(|(k, (n, ex))| (k.to_string(), J::Obj(vec![("count".into(), J::UInt(*n)), ("first_example".into(), ex.as_ref().map(|e| J::from(e.1.as_str())).unwrap_or(J::Null))]))).collect());
     let extra = J::Obj(total.extra_digests.keys().cloned().collect::<Vec<_>>().into_iter().map(|k| (k.to_string(), J::UInt(total.distinct_extra(k)))).collect());
